@@ -95,7 +95,9 @@ func plus1(l lang) lang {
 	}
 }
 
-func star1(l lang) lang { return func(s string, i, j int) bool { return vf.Or(i == j, plus1(l)(s, i, j)) } }
+func star1(l lang) lang {
+	return func(s string, i, j int) bool { return vf.Or(i == j, plus1(l)(s, i, j)) }
+}
 
 func rep1(l lang, n int) lang {
 	return func(s string, i, j int) bool {
@@ -531,5 +533,33 @@ func VF_C11_LongTokens(i, kind int) {
 		}
 	}
 	vf.BudgetReset()
+	vf.Reach("end")
+}
+
+// VF_C11_Reuse: a parser instance that has already been used - for an accepted text, or for a text it
+// rejected (c12bad[i], valid tokens in invalid orders leave tokens pushed back) - accepts the valid document
+// c12docs[j] with the same result as a fresh parser.
+func VF_C11_Reuse(i, j int) {
+	good := c12docs[j]
+	vf.Budget(30000000)
+	want := mod.FormatValue(mod.ParseSource(good))
+	p := cdc.Parser().Make()
+	first := "[1, 2](List)\n"
+	if i < len(c12bad) {
+		first = c12bad[i]
+	}
+	p1, _ := vf.Panics(func() { p.ParseSource(first) })
+	var v any
+	pn, rt := vf.Panics(func() { v = p.ParseSource(good) })
+	vf.Assert("valid-text-accepted-by-a-used-parser", !pn)
+	vf.Assert("no-runtime-error-from-a-used-parser", !rt)
+	if !pn {
+		vf.Assert("same-result-as-a-fresh-parser", mod.FormatValue(v) == want)
+	}
+	// and the first text gets the same verdict from the used parser as it got from the fresh one
+	p2, rt2 := vf.Panics(func() { p.ParseSource(first) })
+	vf.Assert("same-verdict-again", vf.And(p2 == p1, !rt2))
+	vf.BudgetReset()
+	vf.Assert("no-goroutine-left", vf.Quiesce() == 0)
 	vf.Reach("end")
 }
